@@ -102,6 +102,11 @@ var c03Symbols = func() []c03Sym {
 		c03Sym{Name: "Close1015", Op: frame.OpClose, Fin: true, Payload: frame.ClosePayload(1015, "x")},
 		c03Sym{Name: "Close2999", Op: frame.OpClose, Fin: true, Payload: frame.ClosePayload(2999, "")},
 		c03Sym{Name: "Close5000", Op: frame.OpClose, Fin: true, Payload: frame.ClosePayload(5000, "")},
+		// the ends of the ranges of codes that may appear on the wire
+		c03Sym{Name: "Close1014", Op: frame.OpClose, Fin: true, Payload: frame.ClosePayload(1014, "gw")},
+		c03Sym{Name: "Close1016", Op: frame.OpClose, Fin: true, Payload: frame.ClosePayload(1016, "")},
+		c03Sym{Name: "Close3000", Op: frame.OpClose, Fin: true, Payload: frame.ClosePayload(3000, "")},
+		c03Sym{Name: "Close4999", Op: frame.OpClose, Fin: true, Payload: frame.ClosePayload(4999, "x")},
 		// violations
 		c03Sym{Name: "vRsv2", Op: frame.OpText, Fin: true, Rsv2: true, Payload: one},
 		c03Sym{Name: "vRsv3", Op: frame.OpText, Fin: true, Rsv3: true, Payload: one},
